@@ -150,11 +150,20 @@ def grep_forbidden():
 
 def property_theorems(pid):
     """names of the property theorems declared in YarlProofs/<pid>.lean"""
-    p = os.path.join(LEAN, "YarlProofs", f"{pid}.lean")
-    if not os.path.exists(p):
-        return []
-    body = strip_comments(open(p).read())
-    return re.findall(r"^theorem\s+(" + pid + r"_[A-Za-z0-9_']+)", body, flags=re.M)
+    names = []
+    for p in property_files(pid):
+        body = strip_comments(open(p).read())
+        names += re.findall(r"^theorem\s+(" + pid + r"_[A-Za-z0-9_']+)", body, flags=re.M)
+    return names
+
+
+def property_files(pid):
+    import glob
+    return sorted(glob.glob(os.path.join(LEAN, "YarlProofs", f"{pid}*.lean")))
+
+
+def property_modules(pid):
+    return ["YarlProofs." + os.path.basename(p)[:-5] for p in property_files(pid)]
 
 
 def audit(pid):
@@ -165,7 +174,7 @@ def audit(pid):
     if not names:
         res["failed"] = [f"YarlProofs/{pid}.lean (no property theorems found)"]
         return res
-    ok, log, secs = lake(f"YarlProofs.{pid}")
+    ok, log, secs = lake(*property_modules(pid))
     res["build_s"] = round(secs, 1)
     if not ok:
         res["log"] = log[-6000:]
@@ -173,7 +182,7 @@ def audit(pid):
         res["failed"] = failed_theorems(pid, log) or names
         res["discharged"] = len([n for n in names if n not in res["failed"]])
         return res
-    body = strip_comments(open(os.path.join(LEAN, "YarlProofs", f"{pid}.lean")).read())
+    body = "\n".join(strip_comments(open(p).read()) for p in property_files(pid))
     nss = ["Yarl", "Yarl.Cache", "Yarl.Writer"]
     stack = []
     for m in re.finditer(r"^(namespace|end)\s+([A-Za-z0-9_.]+)", body, flags=re.M):
@@ -185,7 +194,7 @@ def audit(pid):
                     nss.append(cand)
         elif stack:
             stack.pop()
-    src = f"import YarlProofs.{pid}\n" + "".join(f"open {ns}\n" for ns in nss if ns.startswith("Yarl")) + "\n".join(f"#print axioms {n}" for n in names) + "\n"
+    src = "".join(f"import {m}\n" for m in property_modules(pid)) + "".join(f"open {ns}\n" for ns in nss if ns.startswith("Yarl")) + "\n".join(f"#print axioms {n}" for n in names) + "\n"
     r = subprocess.run(["lake", "env", "lean", "--stdin"], cwd=LEAN, input=src, capture_output=True, text=True, timeout=900)
     out = r.stdout + r.stderr
     for n in names:
